@@ -421,7 +421,7 @@ func createFilesInsideRPM(info *nfpm.Info, rpm *rpmpack.RPM) (err error) {
 func asRPMDirectory(content *files.Content, mtime time.Time) *rpmpack.RPMFile {
 	return &rpmpack.RPMFile{
 		Name:  content.Destination,
-		Mode:  uint(content.Mode()) | tagDirectory,
+		Mode:  uint(content.UnixMode()) | tagDirectory,
 		MTime: uint32(mtime.Unix()),
 		Owner: content.FileInfo.Owner,
 		Group: content.FileInfo.Group,
@@ -448,7 +448,7 @@ func asRPMFile(content *files.Content, fileType rpmpack.FileType) (*rpmpack.RPMF
 	return &rpmpack.RPMFile{
 		Name:  content.Destination,
 		Body:  data,
-		Mode:  uint(content.FileInfo.Mode),
+		Mode:  uint(content.UnixMode()),
 		MTime: uint32(content.FileInfo.MTime.Unix()),
 		Owner: content.FileInfo.Owner,
 		Group: content.FileInfo.Group,
